@@ -46,14 +46,16 @@ struct World {
     x.k = UNSPEC; x.d = d; x.buf = -1; x.vals.clear();
   }
   // target after an operation with known expected value
-  void adopt_target(int i, const Vec& expect, double tol_scale, const char* opname, bool must_be_owned) {
+  // `mag`: magnitude of the terms the expected value was formed from, when those can be much larger than the value itself
+  // (v += a*s may be contracted into one fused multiply-add in the AVX2 build: one rounding of |a*s| less than the model)
+  void adopt_target(int i, const Vec& expect, double tol_scale, const char* opname, bool must_be_owned, const Vec* mag = nullptr) {
     Slot& x = s[i];
     unsigned d = x.v->Dim();
     if ((size_t)d * d != expect.size()) { viol(std::string(opname) + ":wrong-dimension", vh::fmt("slot %d has Dim()=%u, expected %zu components", i, d, expect.size())); return; }
     if (d == 0) { x.k = EMPTY; x.d = 0; x.buf = -1; x.vals.clear(); return; }
     Vec got = comps(*x.v);
     for (size_t k = 0; k < got.size(); k++) {
-      double tol = tol_scale * 8 * EPS * (std::fabs(expect[k]) + tol_scale);
+      double tol = tol_scale * 8 * EPS * (std::fabs(expect[k]) + tol_scale + (mag ? (*mag)[k] : 0.0));
       if (!(std::fabs(got[k] - expect[k]) <= tol)) { viol(std::string(opname) + ":wrong-value", vh::fmt("slot %d component %zu is %.17g, expected %.17g", i, k, got[k], expect[k])); return; }
     }
     const double* p = &(*x.v)[0];
@@ -337,7 +339,9 @@ void run_history(vh::Ctx& c, vh::Rng& r, const std::string& prop, bool extended,
         } catch (std::runtime_error&) { threw = true; }
         if (threw != expect_throw) { w.viol("expression-assign:exception-mismatch", vh::fmt("threw=%d expected=%d", (int)threw, (int)expect_throw)); break; }
         if (!threw) {
-          w.adopt_target(t, expect, 2, "expression-assign", false);
+          Vec mag(res.size(), 0.0);
+          if (form != 0) for (size_t k = 0; k < res.size(); k++) mag[k] = std::fabs(tv[k]) + std::fabs(res[k]);
+          w.adopt_target(t, expect, 2, "expression-assign", false, &mag);
           if (w.dead_end) break;
           if (ex_a_rvalue(e) && a != t) { w.observe_source(a); c.count("consumed_operands"); }
           if (ex_b_rvalue(e) && b >= 0 && b != t) { w.observe_source(b); c.count("consumed_operands"); }
